@@ -13,10 +13,20 @@ FN = [('r', r) for r in rops.REDUCERS] + [('f', k) for k in rops.FUNCS]
 STRRED = ['mean', 'sum', 'min', 'max', 'std', 'var', 'median']   # reduce_dim string form
 CONV = [['valid', [.5, .5]], ['same', [.25, .5, .25]], ['full', [1., 1.]]]
 DICTFN = [('d', 'diff'), ('d', 'first')]   # documented dict form {'func1d': f}
+# dict form WITH keyword options (each dimension its own): {'func1d': scale_shift, 'a': .., 'b': ..}
+DICTKW = [('d', 'ss_2_1'), ('d', 'ss_m1_3')]
+KWOPTS = {'ss_2_1': dict(a=2., b=1.), 'ss_m1_3': dict(a=-1., b=3.)}
+
+
+def scale_shift(x, a, b):
+    return x * a + b
+
 COMMUTING = ('sum', 'min', 'max')
 
 
 def fn_to_py(fn):
+    if fn[0] == 'd' and fn[1] in KWOPTS:
+        return dict(func1d=scale_shift, **KWOPTS[fn[1]])
     if fn[0] == 'd':
         return {'func1d': rops.FUNCS[fn[1]]}
     return fn[1] if fn[0] == 'r' else rops.FUNCS[fn[1]]
@@ -61,7 +71,7 @@ class Prop(core.Prop):
 
     def bounds(self, tier):
         return {'t': [1, 2] if tier == 'quick' else [1, 2, 3], 'z': [1, 2], 'x': [1, 2, 3],
-                'kinds': [['A', 'M', 'B', 'X', 'Zx', 'S'], ['A', 'M', 'B', 'Zx', 'S']],
+                'kinds': [['A', 'M', 'B', 'X', 'Zx', 'S', 'Mn'], ['A', 'M', 'B', 'Zx', 'S']],
                 'functions': [f[1] for f in FN],
                 'triples': 'same function on all three (quick) / full product (thorough)'}
 
@@ -98,7 +108,15 @@ class Prop(core.Prop):
             yield {'file': group['file'], 'funcs': fs}
             if len(fs) == 2:
                 yield {'file': group['file'], 'funcs': fs[::-1]}
+        if len(dims) == 2:
+            # two dimensions in the dict form, each with its own keyword options
+            for fa, fb in ((DICTKW[0], DICTKW[1]), (DICTKW[1], DICTKW[0]), (DICTKW[0], ('d', 'diff'))):
+                fs = [[dims[0], list(fa)], [dims[1], list(fb)]]
+                yield {'file': group['file'], 'funcs': fs}
+                yield {'file': group['file'], 'funcs': fs[::-1]}
         if len(dims) == 1:
+            for f in DICTKW:
+                yield {'file': group['file'], 'funcs': [[dims[0], list(f)]]}
             for f in DICTFN:
                 yield {'file': group['file'], 'funcs': [[dims[0], list(f)]]}
             for r in STRRED:
